@@ -19,6 +19,7 @@ for root, _, fs in os.walk(os.path.join(d, "demo")):
     for f in fs:
         demo.append(os.path.relpath(os.path.join(root, f), d))
 meta = {
+    "round": int(os.environ.get("SEED_ROUND", "1")),
     "seed": sid, "property": prop, "summary": summary, "needs_to_manifest": needs,
     "patch": "patch.diff", "demonstration": sorted(demo),
     "confirmed": ["go build ./... with the change", "demonstration fails with the change, passes without it",
